@@ -80,9 +80,13 @@ def _impl_range(inp):
     import numpy as np
     from soundevent import arrays
     kind = inp["kind"]
-    ty = inp.get("argty")
-    start, stop = _typed(f(inp["start"]), ty), _typed(f(inp["stop"]), ty)
-    step = _typed(f(inp.get("step")), ty)
+    aty = inp.get("argty")
+    ty = aty if not isinstance(aty, dict) else None
+
+    def tyof(field):
+        return aty.get(field) if isinstance(aty, dict) else aty
+    start, stop = _typed(f(inp["start"]), tyof("start")), _typed(f(inp["stop"]), tyof("stop"))
+    step = _typed(f(inp.get("step")), tyof("step"))
     kw = {"dtype": np.float32} if inp.get("dtype") == "float32" else {}
     if kind == "range":
         size = inp.get("size")
@@ -91,7 +95,7 @@ def _impl_range(inp):
         v = arrays.create_range_dim("x", start, stop, step=step, size=size, **kw)
         assert v.dims == ("x",)
     elif kind == "time":
-        v = arrays.create_time_range(start, stop, step=step, samplerate=_typed(f(inp.get("samplerate")), ty), **kw)
+        v = arrays.create_time_range(start, stop, step=step, samplerate=_typed(f(inp.get("samplerate")), tyof("samplerate")), **kw)
         assert v.dims == ("time",)
     else:
         v = arrays.create_frequency_range(start, stop, step, **kw)
@@ -381,6 +385,14 @@ def _range_random_cases(rng, n):
         nums = [f(case.get(k)) for k in ("start", "stop", "step", "samplerate")]
         if ty != "float" and all(_fits(x, ty) for x in nums):
             case["argty"] = ty
+        elif rng.random() < 0.5:     # a different type per argument
+            mixed = {}
+            for k in ("start", "stop", "step", "samplerate"):
+                t = rng.choice(["float", "int", "npint", "np64", "np32"])
+                if case.get(k) is not None and t != "float" and _fits(f(case[k]), t):
+                    mixed[k] = t
+            if mixed:
+                case["argty"] = mixed
         if rng.random() < 0.15 and all(_fits(x, "np32") for x in nums):
             case["dtype"] = "float32"
         yield case
